@@ -68,11 +68,15 @@ pub enum Op {
     // entity-level
     DeleteNow(u8),
     DeleteBatch(u8, u8),
+    /// `delete_entities(&[h, h])`: fails at the repeated handle after `h` was deleted (and purged)
+    DeleteBatchFailing(u8),
     DeleteDeferred(u8),
     Maintain,
     // lazy / builder entry points (C08)
     LazyInsert(u8),
     BuilderWith,
+    /// a builder given the same component type twice (documented to overwrite)
+    BuilderWithTwice,
     // change tracking
     Emission(bool),
     /// a second reader subscribes late (must not change what is emitted)
@@ -249,7 +253,7 @@ impl<'c, T: Kind, U: Kind> Run<'c, T, U> {
                 | Op::EntryOrInsertWith(e) | Op::EntryReplace(e) | Op::EntryOccGet(e) | Op::EntryOccGetMutWrite(e)
                 | Op::EntryOccInsert(e) | Op::EntryOccRemove(e) | Op::GetMutOrDefault(e) | Op::GetMutOrDefaultWrite(e)
                 | Op::DeleteNow(e) | Op::DeleteDeferred(e) | Op::LazyInsert(e) | Op::InsertOther(e) | Op::RestrictOtherMut(e)
-                | Op::ReadOnly(e) | Op::DrainLendTwice(e) => Some(*e),
+                | Op::ReadOnly(e) | Op::DrainLendTwice(e) | Op::GenInsert(e) | Op::GenRemove(e) | Op::DeleteBatchFailing(e) => Some(*e),
                 _ => None,
             }
         };
@@ -831,6 +835,14 @@ impl<'c, T: Kind, U: Kind> Run<'c, T, U> {
                 }
                 self.die(*e as usize, &mut exp);
             }
+            Op::DeleteBatchFailing(e) => {
+                let h = self.ents[*e as usize];
+                match self.w.delete_entities(&[h, h]) {
+                    Err((wg, 1)) if wg.entity == h => {}
+                    other => fail!(self, "entity: delete_entities(&[h, h]) returned {:?}, expected an error naming position 1", other.map_err(|(wg, i)| (wg.entity, i))),
+                }
+                self.die(*e as usize, &mut exp);
+            }
             Op::DeleteBatch(a, b) => {
                 if *a >= n || *b >= n || a == b || !self.alive[*a as usize] || !self.alive[*b as usize] {
                     return None;
@@ -877,6 +889,21 @@ impl<'c, T: Kind, U: Kind> Run<'c, T, U> {
                 let v = self.fresh();
                 self.w.read_resource::<LazyUpdate>().insert(h, T::make(v));
                 self.lazy.push((*e, v));
+            }
+            Op::BuilderWithTwice => {
+                if self.builder_used {
+                    return None;
+                }
+                self.builder_used = true;
+                let v0 = self.fresh();
+                let v = self.fresh();
+                let h = self.w.create_entity().with(T::make(v0)).maybe_with(None::<T>).with(T::make(v)).build();
+                self.ents.push(h);
+                self.alive.push(true);
+                self.pending.push(false);
+                self.model.insert(h.id(), v);
+                exp.insrem.push(ComponentEvent::Inserted(h.id()));
+                exp.modified.insert(h.id(), M::May);
             }
             Op::BuilderWith => {
                 if self.builder_used {
@@ -1124,6 +1151,7 @@ impl<'c, T: Kind, U: Kind> Run<'c, T, U> {
             if p == Prop::C19 {
                 v.push(Op::InsertOther(e));
                 v.push(Op::DeleteNow(e));
+                v.push(Op::DeleteBatchFailing(e));
                 v.push(Op::DeleteDeferred(e));
                 v.push(Op::LazyInsert(e));
                 v.push(Op::EntryOccRemove(e));
@@ -1142,9 +1170,13 @@ impl<'c, T: Kind, U: Kind> Run<'c, T, U> {
             ]);
             if p == Prop::C12 || p == Prop::C20 {
                 v.extend([Op::GetMutPeek(e), Op::ReadOnly(e), Op::RestrictOtherMut(e), Op::DeleteNow(e), Op::DeleteDeferred(e)]);
+                if p == Prop::C12 {
+                    v.push(Op::DeleteBatchFailing(e));
+                }
             }
             if p == Prop::C04 && e == 0 {
                 v.push(Op::DeleteNow(e));
+                v.push(Op::DeleteBatchFailing(e));
             }
             if p == Prop::C08 {
                 // entity-level entry points on a fixed subset keeps the graph small:
@@ -1152,7 +1184,7 @@ impl<'c, T: Kind, U: Kind> Run<'c, T, U> {
                 // target entities 0 and 2 (so they hit live, pending and dead targets)
                 match e {
                     0 => v.extend([Op::LazyInsert(e), Op::DeleteDeferred(e)]),
-                    1 => v.push(Op::DeleteNow(e)),
+                    1 => v.extend([Op::DeleteNow(e), Op::DeleteBatchFailing(e)]),
                     2 => v.push(Op::LazyInsert(e)),
                     _ => {}
                 }
@@ -1211,6 +1243,9 @@ impl<'c, T: Kind, U: Kind> Run<'c, T, U> {
         if p == Prop::C08 || p == Prop::C19 {
             v.push(Op::Maintain);
             v.push(Op::BuilderWith);
+            if p == Prop::C08 {
+                v.push(Op::BuilderWithTwice);
+            }
         }
         if p == Prop::C08 && !self.huge_used && T::ZST {
             v.push(Op::HugeEntry);
@@ -1225,7 +1260,7 @@ impl<'c, T: Kind, U: Kind> Run<'c, T, U> {
         v.retain(|op| match op {
             Op::Emission(_) | Op::SecondReader => T::TRACK != Track::None,
             Op::MaybeJoinMut => T::HAS_JOIN_MUT,
-            Op::BuilderWith => !self.builder_used,
+            Op::BuilderWith | Op::BuilderWithTwice => !self.builder_used,
             Op::LazyInsert(_) => self.lazy.len() < self.cfg.max_lazy,
             Op::RestrictOtherMut(_) => !self.model.is_empty(),
             Op::DeleteBatch(a, b) => a != b && self.alive[*a as usize] && self.alive[*b as usize],
@@ -1268,8 +1303,17 @@ impl<T: Kind, U: Kind> Store<T, U> {
         let mut viol = r.viol.take();
         let counters = r.counters;
         let tr = r.tr;
-        // every history ends with the world being dropped
-        drop(r);
+        // every history ends with the world being dropped: normally, or (C08, histories of odd
+        // length) while the thread unwinds from a panic in user code that is not a destructor
+        let unwinding = p == Prop::C08 && ops.len() % 2 == 1;
+        if unwinding {
+            let _ = catch(move || {
+                let _world_dies_during_unwinding = r;
+                panic!("user code panics while the world is alive");
+            });
+        } else {
+            drop(r);
+        }
         if viol.is_none() {
             if let Some(e) = ledger_errors().into_iter().next() {
                 viol = Some(format!("ledger: at world drop: {}", e));
@@ -1277,9 +1321,9 @@ impl<T: Kind, U: Kind> Store<T, U> {
                 let live = ledger_live();
                 let (made, dropped) = ledger_zst_balance();
                 if !live.is_empty() {
-                    viol = Some(format!("ledger-leak: {} component values neither returned nor destroyed after the world was dropped (ids {:?})", live.len(), &live[..live.len().min(4)]));
+                    viol = Some(format!("ledger-leak: {} component values neither returned nor destroyed after the world was dropped{} (ids {:?})", live.len(), if unwinding { " while unwinding from a panic in user code" } else { "" }, &live[..live.len().min(4)]));
                 } else if made != dropped {
-                    viol = Some(format!("ledger-leak: zero-sized components: {} constructed, {} destroyed after the world was dropped", made, dropped));
+                    viol = Some(format!("ledger-leak: zero-sized components: {} constructed, {} destroyed after the world was dropped{}", made, dropped, if unwinding { " while unwinding from a panic in user code" } else { "" }));
                 }
             }
         }
@@ -1393,11 +1437,11 @@ impl<T: Kind, U: Kind> Store<T, U> {
         if in_last && ledger_panicked() {
             // the world must remain usable: observations ...
             let touched: Vec<u8> = match last {
-                Op::Insert(e) | Op::Remove(e) | Op::GetMutWrite(e) | Op::EntryOccRemove(e) | Op::DeleteNow(e) | Op::DeleteDeferred(e) | Op::LazyInsert(e) | Op::InsertOther(e) => vec![*e],
+                Op::Insert(e) | Op::Remove(e) | Op::GetMutWrite(e) | Op::EntryOccRemove(e) | Op::DeleteNow(e) | Op::DeleteDeferred(e) | Op::LazyInsert(e) | Op::InsertOther(e) | Op::GenInsert(e) | Op::GenRemove(e) | Op::DeleteBatchFailing(e) => vec![*e],
                 Op::DeleteBatch(a, b) => vec![*a, *b],
                 _ => (0..r.ents.len() as u8).collect(),
             };
-            let global_u = matches!(last, Op::Maintain | Op::DeleteNow(_) | Op::DeleteBatch(..));
+            let global_u = matches!(last, Op::Maintain | Op::DeleteNow(_) | Op::DeleteBatch(..) | Op::DeleteBatchFailing(_));
             let follow = catch(|| {
                 let mut msgs: Vec<String> = vec![];
                 {
@@ -1527,6 +1571,61 @@ impl<T: Kind, U: Kind> Store<T, U> {
             }
             if let Some(e) = ledger_errors().into_iter().next() {
                 return Some(format!("ledger: during the follow-up after the caught panic: {}", e));
+            }
+            // The next frame: indices freed by the faulty operation are recycled, the newcomers get
+            // components of the same type, and further deletion passes run (immediate and through
+            // maintain) for entities that never had one. The newcomers' values must survive.
+            let n_dead = {
+                let ents = r.w.entities();
+                r.ents.iter().filter(|h| !ents.is_alive(**h)).count()
+            };
+            let frame = catch(|| -> Option<String> {
+                r.w.maintain();
+                let newcomers: Vec<Entity> = (0..n_dead + 1).map(|_| r.w.create_entity().build()).collect();
+                let mut vals = vec![];
+                {
+                    let mut st = r.w.write_storage::<T>();
+                    for (k, e) in newcomers.iter().enumerate() {
+                        let v = 60_000 + k as u32;
+                        match st.insert(*e, T::make(v)) {
+                            // (a component left behind by the interrupted purge may legitimately be replaced here)
+                            Ok(old) => {
+                                old.map(|t| t.returned());
+                            }
+                            Err(_) => return Some(format!("next-frame: insert for the new live entity {:?} failed", e)),
+                        }
+                        vals.push(Self::zv_t(v));
+                    }
+                }
+                let bystander = r.w.create_entity().build();
+                if r.w.delete_entity(bystander).is_err() {
+                    return Some("next-frame: deleting a fresh entity failed".into());
+                }
+                let bystander = r.w.create_entity().build();
+                if r.w.entities().delete(bystander).is_err() {
+                    return Some("next-frame: deferred deletion of a fresh entity failed".into());
+                }
+                r.w.maintain();
+                let st = r.w.read_storage::<T>();
+                for (e, v) in newcomers.iter().zip(&vals) {
+                    let got = st.get(*e).map(|c| c.observe());
+                    if got != Some(*v) {
+                        return Some(format!("next-frame: the component of the living entity {:?} reads {:?} after unrelated deletions, expected {:?}", e, got, v));
+                    }
+                }
+                let joined: Vec<u32> = (&st).join().map(|c| c.observe()).collect();
+                if joined.len() != st.count() {
+                    return Some(format!("next-frame: join yields {} items, count() says {}", joined.len(), st.count()));
+                }
+                None
+            });
+            match frame {
+                Err(m) => return Some(format!("follow-up-panic: the frame after the caught panic panicked: {}", m)),
+                Ok(Some(m)) => return Some(m),
+                Ok(None) => {}
+            }
+            if let Some(e) = ledger_errors().into_iter().next() {
+                return Some(format!("ledger: in the frame after the caught panic: {}", e));
             }
         }
         // teardown (the injected panic may fire here)
